@@ -16,7 +16,7 @@ CHECKS = {
  "C13": ("exploration", "E1 enum",
          "exhaustive small-scope enumeration of messages; differential comparison with an independent RFC 1035/9460 codec (dnsref) and x/net dnsmessage in both directions",
          "All header flag combinations, a name pool covering 0/1/2/127 labels and label lengths 1/63 in every name position, every subset of HTTPS parameters, OPT option lists, every message with <=2 records per section over record pools (package-built and reference-built, uncompressed and maximally compressed), extended RCODE grid and AddPadding for every question-name length 1..253 x OPT states are enumerated completely; each case is round-tripped and cross-decoded by two independent codecs.",
-         "trusts dnsref and x/net dnsmessage v0.42.0; HTTPS parameter keys limited to 1..6 ascending (what dns.HTTPS can represent)", "§3 C13"),
+         "trusts dnsref and x/net dnsmessage v0.42.0; HTTPS parameter keys limited to 1..6 ascending (what dns.HTTPS can represent); decoded names must survive the input buffer being overwritten and appends to one section of a decoded message must not change another", "§3 C13"),
  "C02": ("fault_enumeration", "E1 enum",
          "exhaustive fault enumeration on spec-built hellos: every single-bit flip, every truncation, every substitution class; crypto/tls as second oracle",
          "For 36 base tuples sealed by an independent reference sender (validated against crypto/tls), every single-bit flip of the outer ClientHello message, every truncation of enc and payload, and each wrong-key/wrong-info/wrong-suite/wrong-config-id/wrong-sequence substitution is fed to the real NewConn; acceptance of any of them is a violation, as is a fall-back that does not forward the client's bytes.",
@@ -31,7 +31,7 @@ CHECKS = {
          "trusts tlsref/hpkeref; admissible classes per fault from the statement and draft §5.1/§7/§7.1; length mutations that leave a well-formed hello may be handled transparently", "§3 C04"),
  "C05": ("exploration", "E1 enum",
          "exhaustive small-scope enumeration of syntactically valid ClientHellos x key sets x following record streams; byte-identity oracle plus crypto/tls as independent SNI/ALPN extractor",
-         "Every ordered selection of up to 3 (thorough: 4) extensions from a 12-item pool x legacy versions x session ids x cipher-suite lists x compression lists x key sets {none, unrelated, same id}, plus 'no extensions block', plus all record sequences up to depth 3 (4) after the hello and backend->client writes, are run through the real Conn; forwarded bytes must equal the client's bytes (record-header version excepted) and ServerName/ALPN must equal what crypto/tls extracts.",
+         "Every ordered selection of up to 3 (thorough: 4) extensions from a 12-item pool x legacy versions x session ids x cipher-suite lists x compression lists x key sets {none, unrelated, same id}, plus 'no extensions block', plus all record sequences up to depth 3 (4) after the hello and backend->client writes, are run through the real Conn; forwarded bytes must equal the client's bytes byte for byte (record header included), ServerName/ALPN must equal what crypto/tls extracts and read the same after Close; a CloseWrite offered through a type assertion must not close a transport that has none.",
          "crypto/tls as independent extractor; SNI name_type 0 only, ALPN names non-empty", "§3 C05"),
  "C09": ("exploration", "E1 enum",
          "exhaustive differential enumeration of key lists: outcome(list) compared with outcome([T]) / outcome(no relevant key) for first and retried hellos",
@@ -46,7 +46,7 @@ CHECKS = {
          "Every sequence of up to 2 (3) of 47 well-/ill-formed variants of the interpreted extensions in outer and sealed inner hellos, every length field set to {0,-1,+1,max} singly and pairwise, every message cut, every first-record type, and record/ServerHello/second-hello mutations in both directions after accepted and passed-through hellos are executed on the real Conn; no panic, no zero-progress return, bounded retained heap, no hang. The deadline clause (NewConn returns by its context deadline when the client stalls at any byte) is decided by the scheduler-based check registered with C10's engine.",
          "inputs are grammar-bounded, not arbitrary byte noise; memory measured as retained heap after the call with harness-held bytes subtracted", "§3 C08"),
  "C06": ("model_checking", "E4 hist + E3 gosched",
-         "explicit-state model of the retry protocol; every history up to the depth bound over a 26-event alphabet replayed on fresh real Conns, model and implementation compared after every event; plus controlled-scheduler exploration of the same protocol with Read and Write running concurrently (sub-run on the instrumented sources)",
+         "explicit-state model of the retry protocol; every history up to the depth bound over a 28-event alphabet replayed on fresh real Conns, model and implementation compared after every event; plus controlled-scheduler exploration of the same protocol with Read and Write running concurrently (sub-run on the instrumented sources)",
          "The model (accepted / pass-through flags / armed-by-HRR / retried / dead) is stepped alongside the real Conn for every history of length 4 (thorough 5) over 18 client and 6 backend events, from three initial situations; bytes delivered, error class, alert bytes and close are compared at every step; reachable model states and transitions are counted. A second part pumps the real instrumented Conn from two threads plus a reacting client thread (56 scenarios) and explores all schedules with at most 3 (6) deviations: both byte streams, the error class and the alert must equal the sequential outcome.",
          "model written from the property statement; whole-record events (fragmentation is C07); reference sender validated against crypto/tls", "§3 C06"),
  "C01": ("exploration", "E1 enum",
@@ -56,19 +56,19 @@ CHECKS = {
  "C12": ("exploration", "E1 enum (worker processes)",
          "grammar-bounded exhaustive enumeration of hostile DNS messages (name-token strings in every name position, RDATA truncations/mutations, header counts, scaling families), in memory-capped worker processes with hang watchdog",
          "Every string of up to 4 (5) name tokens (labels, end, pointers to self/forward/header/earlier tokens/past the end, reserved prefixes, half pointers) is placed in the question, owner and every name-bearing RDATA position; 18 RDATA layouts are cut at every byte and mutated at every byte; header counts are swept; scaling families up to 16 KiB (64 KiB) bound time and allocation polynomially; every decoded message is then served as the DoH body to the real Resolver.",
-         "token grammar, not arbitrary bytes; allocation = TotalAlloc delta, budget 256KiB+512n+n^2/2", "§3 C12"),
+         "token grammar, not arbitrary bytes; allocation = TotalAlloc delta, budget 256KiB+512n+n^2/2; three DoH bodies also travel through a real http.Transport over loopback TLS (what the transport inflates itself is invisible below it)", "§3 C12"),
  "C14": ("model_checking", "E1/E4 + dohmem",
          "reference resolver model (RFC 9460 procedure) + total replay over an exhaustively enumerated universe of zones x name forms against an in-memory DoH responder that logs every query",
          "75 HTTPS data shapes (absent, 5 rcodes, 9 service sets, alias chains of length 1..6, 12 and 30 with 7 kinds of endings incl. loops) x address data x rcodes x in-answer CNAME x target addresses x poisoned answers x 12 name forms are enumerated (quick: covering rotation for 8 of the forms); the real Resolve runs against the in-memory DoH responder; result, error class, set and number of queries and query padding are compared with the model; hostile names, labels and schemes of every boundary length must yield an error or result and only well-formed queries.",
-         "model in checks/c14 (chains <=3 must be followed, longer ones may be abandoned; loops end in fallback or error); mixed alias/service RRsets excluded", "§3 C14"),
+         "model in checks/c14 (chains <=3 must be followed, longer ones may be abandoned; loops end in fallback or error); mixed alias/service RRsets excluded; URI tails up to 70000 octets and CNAME-only answers that circle or chain across responses are part of the hostile families (wall-clock watchdog 20 s)", "§3 C14"),
  "C16": ("model_checking", "E4 hist + E3 gosched",
          "history enumeration against a map-based cache model (virtual clock, in-memory DoH, every history up to the depth bound) + controlled-scheduler exploration of concurrent lookups + deterministic write-footprint oracle",
          "Every history of length 6 (thorough 8) over 11 events (two lookups, three clock advances, NXDOMAIN for the HTTPS query only, zone version change, three failure toggles, re-sizing the live cache) is replayed on a fresh Resolver and compared with the model's per-key prediction of upstream queries and admissible content versions; concurrent lookups on colliding keys are explored under the controlled scheduler (incl. scenarios in which the wall clock steps forward by 10 s at a point the explorer chooses; every clock reading of the resolver is logged and a lookup that did not fetch an answer itself must have seen it within its lifetime); Targets/Resolve on shared results are checked byte-for-byte for writes into shared memory.",
          "clock/transport owned via verif hooks; responses without records carry no TTL bound; plain data races are covered by the footprint oracle and a supplementary (sampled, reported separately, never counted as exploration) free-running -race pass", "§3 C16"),
  "C20": ("model_checking", "E4 hist + E2 envx + cfmem",
          "history enumeration of publishes against a map-based model over an in-memory fake of the Cloudflare API; API failures as single deviations at every request index",
-         "All histories of up to 2 calls with target lists of length <=2 (3) and all histories of 3 calls with lists <=1, from 13 initial parameter strings (incl. several ech entries, a bare ech key, quoted values with blanks and with an escaped backslash), with the zone on one or three pages, plus a single API failure of three kinds at every request index, are replayed on a fresh publisher; statuses, the stored values (tokenised) of touched and untouched records and the request log are compared with the model after every call.",
-         "one HTTPS record per name and zone; fake API follows Cloudflare v4 list semantics (count = items on the page)", "§3 C20"),
+         "All histories of up to 2 calls with target lists of length <=2 (3) and all histories of 3 calls with lists <=1, from 15 initial parameter strings (incl. several ech entries, a bare ech key, quoted values with blanks and with an escaped backslash), with the zone on one or three pages, plus a single API failure of three kinds at every request index, are replayed on a fresh publisher; statuses, the stored values (tokenised) of touched and untouched records and the request log are compared with the model after every call.",
+         "one HTTPS record per name and zone; fake API follows Cloudflare v4 list semantics (count = items on the page); the fake gzip-encodes answers to requests that ask for gzip themselves; the caller refills one list buffer per history", "§3 C20"),
  "C18": ("model_checking", "E3 gosched",
          "stateless model checking of the real Dial under a controlled scheduler: sources rewritten at check time (goroutines, channels, select, WaitGroup, context, timers -> shims), all schedules up to a deviation bound in virtual time, monitors over the event log",
          "For every scenario of the grid (1..3 (4) targets x 13 per-target plans (incl. an ECH rejection followed by a hanging retry, a success that ignores its deadline, a host name with slow DNS lookups, a second name on the previous target's address) x MaxConcurrency x delay/timeout x caller cancellation time, plus RequireECH scenarios whose targets come from one resolution result with some records lacking an ech parameter, and the small scenarios again with the Dialer instantiated for an interface connection type, plus failures whose error wraps context.Canceled) every schedule with at most 1 (2) deviations from the canonical one (2 in the quick tier for scenarios with at most 2 targets) is executed on the real code; monitors check start order, in-flight bound, staggering (delay or one reported failure per early start), per-attempt timeout, first success wins, every other established connection closed exactly once, joined errors, prompt return on cancellation, cancelled context for attempts after the decision, and termination of every goroutine.",
@@ -76,15 +76,15 @@ CHECKS = {
  "C10": ("model_checking", "E3 gosched",
          "stateless model checking of the real NewConn under a controlled scheduler (sources rewritten at check time), all schedules up to a deviation bound in virtual time",
          "For every combination of hello arrival (buffered, late, two fragments, never) x context end (never, cancelled by another thread at three times, cancelled by the caller right after the return, deadline) x keys, every schedule of caller, canceller, client and NewConn's own watcher goroutine with at most 8 deviations (thorough: no bound, the complete schedule tree) is executed on the real code; monitors check prompt failure when the context ends first, and that after a successful return no deadline call starts, no deadline is left set and the caller's Read/Write succeed.",
-         "zero-time computation; sequentially consistent memory at synchronisation granularity; scheduler-aware fake transport honouring deadlines", "§3 C10"),
+         "zero-time computation; sequentially consistent memory at synchronisation granularity; scheduler-aware fake transport honouring deadlines; a second transport shape offers CloseRead/CloseWrite like *net.TCPConn", "§3 C10"),
  "C17": ("fault_enumeration", "E1 enum + E2 envx",
          "exhaustive enumeration of resolution worlds and caller configurations; every tree of per-attempt outcomes (ok / error / ECH rejection with and without retry configs) explored by re-execution; oracle on the DialFunc argument log",
          "9 resolution worlds (served by an in-memory DoH responder) x 5 caller configs x RequireECH x PublicName x 3 address forms; for each, every outcome vector of the connection attempts is executed on the real Dial; every DialFunc invocation is checked for RequireECH, caller-supplied list/ServerName preservation, per-record ECH list, host-derived server name, exactly one retry with exactly the server's retry configs, and the caller's tls.Config is compared before/after.",
-         "real goroutines (MaxConcurrency 1 makes the log sequential; failures re-run 5x); expected per-address ECH lists and admissible dial addresses written by hand per world (independent of ResolveResult.Targets); the DialFunc that NewDialer installs is replaced by a fake in every scenario and only exercised by a supplementary (sampled, reported separately) -race pass", "§3 C17"),
+         "real goroutines (MaxConcurrency 1 makes the log sequential; failures re-run 5x); expected per-address ECH lists and admissible dial addresses written by hand per world (independent of ResolveResult.Targets); the DialFunc that NewDialer installs is replaced by a fake in every scenario and only exercised by a supplementary (sampled, reported separately) -race pass; one long-lived Dialer with settings changed between Dials is enumerated separately (sequences of <=3 Dials)", "§3 C17"),
  "C19": ("model_checking", "E1 enum + E4 hist",
          "exhaustive decision table for the HTTP/3 choice and record filtering against a reference function; every request history up to the depth bound through the real net/http stack over in-memory TLS servers against a reference",
          "Every set of 1..3 service-mode records over 6 ALPN lists x no-default-alpn x HTTP/3 round-tripper absent/failing/answering is resolved through the in-memory DoH responder and dialed through the context-carried resolver; the protocol choice and the records reaching the dialer are compared with the model. Every request sequence of length <=3 (4) over 8 origins x 3 zones, with and without Host override, is executed with the real http.Client and Transport; plaintext refusal, upgrade, SNI/ServerName, Host header, dial address/port, resp.Request identity and per-connection origin isolation are checked.",
-         "net/http and crypto/tls goroutines run outside any scheduler (failures re-run 5x); HTTP/3 represented by a fake round-tripper that dials through the context-carried resolver; record sets with equal priorities excluded", "§3 C19"),
+         "net/http and crypto/tls goroutines run outside any scheduler (failures re-run 5x); HTTP/3 represented by a fake round-tripper that dials through the context-carried resolver; record sets with equal priorities excluded; a.example. is a separate origin from a.example", "§3 C19"),
 }
 
 NOT_YET = {}
